@@ -75,20 +75,36 @@ def computeError32 (coefs : List Int) (shift : Nat) (xs : List Int) : Option (Li
       let e := xs.getD t 0 - (a >>> shift)
       if fitsI32 e then some (if t < coefs.length then 0 else e) else none
 
-/-- `compute_error_impl::<i64>` followed by `as i32` (never overflows `i64` for 32-bit inputs). -/
+/-- `compute_error_impl::<i64>`: the exact values (never overflows `i64` for 32-bit inputs); the first
+`order` entries are zero. -/
+def computeErrorExact64 (coefs : List Int) (shift : Nat) (xs : List Int) : List Int :=
+  (List.range xs.length).map fun t =>
+    let a := (List.range coefs.length).foldl (fun (a : Int) j =>
+      if t ≥ j + 1 then a + coefs.getD j 0 * xs.getD (t - 1 - j) 0 else a) 0
+    if t < coefs.length then 0 else xs.getD t 0 - (a >>> shift)
+
+/-- `compute_error_impl::<i64>` followed by `as i32` (the wrapped values the `i64` path stores). -/
 def computeError64 (coefs : List Int) (shift : Nat) (xs : List Int) : List Int :=
   (List.range xs.length).map fun t =>
     let a := (List.range coefs.length).foldl (fun (a : Int) j =>
       if t ≥ j + 1 then a + coefs.getD j 0 * xs.getD (t - 1 - j) 0 else a) 0
     if t < coefs.length then 0 else wrap32 (xs.getD t 0 - (a >>> shift))
 
-/-- `compute_error`: dispatch on `maxabs(signal) · Σ|coef| < i32::MAX`. `allCoefs` are the 32
-lanes (unused lanes are zero). -/
-def computeError (coefs : List Int) (shift : Nat) (xs : List Int) : Option (List Int) :=
+/-- The flag of the `i64` path: `fits &= v.unsigned_abs() <= i32::MAX` over the exact values, i.e. every
+value lies in `-(2^31-1) ..= 2^31-1` (`i32::MIN` excluded). -/
+def fitsResidual64 (coefs : List Int) (shift : Nat) (xs : List Int) : Bool :=
+  (computeErrorExact64 coefs shift xs).all fun e => decide (e.natAbs ≤ 2 ^ 31 - 1)
+
+/-- `compute_error`: dispatch on `maxabs(signal) · (Σ|coef| + 1) < i32::MAX` (a bound for the prediction
+AND for `signal[t] - prediction`). `coefs` are the used lanes (unused lanes are zero). Returns the
+error buffer and the flag "every error value is a FLAC residual"; `none` = `i32` overflow (panic with
+overflow checks) on the checked 32-bit path. On the `i64` path the wrapped values are stored whatever
+the flag says. -/
+def computeError (coefs : List Int) (shift : Nat) (xs : List Int) : Option (List Int × Bool) :=
   let maxabs := xs.foldl (fun m x => max m x.natAbs) 0
   let sumabs := coefs.foldl (fun s c => s + c.natAbs) 0
-  if maxabs * sumabs < 2 ^ 31 - 1 then computeError32 coefs shift xs
-  else some (computeError64 coefs shift xs)
+  if maxabs * (sumabs + 1) < 2 ^ 31 - 1 then (computeError32 coefs shift xs).map fun es => (es, true)
+  else some (computeError64 coefs shift xs, fitsResidual64 coefs shift xs)
 
 /-! ### stereo decorrelation (`coding.rs:448-456`) and its inverse (RFC 9639 section 4.2) -/
 
